@@ -15,6 +15,7 @@ import Bee2V.Base.Proto
 import Bee2V.C14.IR
 import Bee2V.Gen.C14IR
 import Bee2V.Gen.C14IR32
+import Bee2V.Gen.C14Exec
 
 namespace Bee2V.C14.Drv
 open Bee2V.Proto Bee2V.C14.IR
@@ -27,6 +28,9 @@ structure G where
   wordOctets : Nat
 
 def g64 : G := ⟨Bee2V.Gen.C14IR.prog, Bee2V.Gen.C14IR.names, Bee2V.Gen.C14IR.globals, 8⟩
+/-- the program executed for the value tie of the Verify steps, beltKWPUnwrap and the block primitives:
+nothing opaque except the allocator (not used by any theorem) -/
+def gx : G := ⟨Bee2V.Gen.C14Exec.prog, Bee2V.Gen.C14Exec.names, Bee2V.Gen.C14Exec.globals, 8⟩
 def g32 : G := ⟨Bee2V.Gen.C14IR32.prog, Bee2V.Gen.C14IR32.names, Bee2V.Gen.C14IR32.globals, 4⟩
 
 def fuel : Nat := 4000000
@@ -184,6 +188,66 @@ def handleStepV (g : G) : List String → String
           { vars := bindArgs 0 vals ∅, sec := sec, pub := initPub g, st := 0, rv := 0, ora := [] }
         if r.1.st == 9 then "out-of-fuel" else if r.1.st == 8 then "stuck" else showRet bits sg r.1.rv
     | _, _, _, _, _, _ => "bad-op"
+  | _ => "bad-op"
+
+def copyRange (src dst : Store) (a : Nat) : Nat → Store
+  | 0 => dst
+  | n + 1 => copyRange src (wr dst a (rd src a)) (a + 1) n
+
+/-- "off:size,off:size" or "-" -/
+def parseRanges (s : String) : Option (List (Nat × Nat)) :=
+  if s == "-" then some [] else
+  (s.splitOn ",").mapM fun p => match p.splitOn ":" with
+    | [a, b] => match parseNat a, parseNat b with
+      | some x, some y => some (x, y)
+      | _, _ => none
+    | _ => none
+
+/-- `stepvx <fname> <state> <tag> <len> <public ranges>`: the whole Verify step (StepG_internal and the
+block primitives included) on a state given octet by octet; prints the result and the state afterwards -/
+def handleStepVX : List String → String
+  | [name, state, tag, len, ranges] =>
+    match findFun gx name, parseHex state, parseHex tag, parseNat len, parseRanges ranges with
+    | some (idx, bits, sg), some stb, some tg, some ln, some rs =>
+      match gx.prog.funs[idx]? with
+      | none => "bad-op"
+      | some fn =>
+        let tagA := bufBase 0
+        let stA := bufBase 1
+        let sec := putBytes (putBytes (putBytes ∅ tagA tg) stA (stb ++ List.replicate 4096 0)) stA stb
+        let pub := rs.foldl (fun m r => copyRange sec m (stA + r.1) r.2) (initPub gx)
+        let vals := if fn.nparams == 3 then [tagA, ln, stA] else [tagA, stA]
+        let r := exec gx.prog false fuel fn.body
+          { vars := bindArgs 0 vals ∅, sec := sec, pub := pub, st := 0, rv := 0, ora := [] }
+        if r.1.st == 9 then "out-of-fuel" else if r.1.st == 8 then "stuck" else
+        let sec' := rs.foldl (fun m x => copyRange r.1.pub m (stA + x.1) x.2) r.1.sec
+        showRet bits sg r.1.rv ++ " " ++ toHex (getBytes sec' stA stb.length)
+    | _, _, _, _, _ => "bad-op"
+  | _ => "bad-op"
+
+/-- `kwp <key> <header|-> <token>`: the IR of beltKWPUnwrap (with beltWBLStart / beltWBLStepD2 / the block
+cipher) on the same operands as the real routine; the allocator returns a scratch buffer -/
+def handleKwp : List String → String
+  | [key, hdr, tok] =>
+    match findFun gx "beltKWPUnwrap", parseHex key, parseHex hdr, parseHex tok with
+    | some (idx, _, _), some k, some h, some t =>
+      match gx.prog.funs[idx]? with
+      | none => "bad-op"
+      | some fn =>
+        if t.length < 32 || (h.length != 0 && h.length != 16) then "bad-op" else
+        let dA := bufBase 0
+        let sA := bufBase 1
+        let hA := bufBase 2
+        let kA := bufBase 3
+        let blob := bufBase 4
+        let sec := putBytes (putBytes (putBytes (putBytes (putBytes ∅ dA (List.replicate (t.length - 16) 0)) sA t) hA h) kA k)
+                     blob (List.replicate 8192 0)
+        let vals := [dA, sA, t.length, (if h.length == 0 then 0 else hA), kA, k.length]
+        let r := exec gx.prog false fuel fn.body
+          { vars := bindArgs 0 vals ∅, sec := sec, pub := initPub gx, st := 0, rv := 0, ora := [blob, 0, 0, 0] }
+        if r.1.st == 9 then "out-of-fuel" else if r.1.st == 8 then "stuck" else
+        toString r.1.rv ++ " " ++ (if r.1.rv == 0 then toHex (getBytes r.1.sec dA (t.length - 16)) else "-")
+    | _, _, _, _ => "bad-op"
   | _ => "bad-op"
 
 end Bee2V.C14.Drv
